@@ -367,8 +367,8 @@ class GCodeBuilder(GCodeCore):
         >>> F<speed>
         """
 
-        self.state._set_feed_rate(speed)
         statement = self.format.parameters({ "F": speed })
+        self.state._set_feed_rate(speed)
         self.write(statement)
 
     @typechecked
@@ -391,8 +391,8 @@ class GCodeBuilder(GCodeCore):
         >>> S<power>
         """
 
-        self.state._set_tool_power(power)
         statement = self.format.parameters({ "S": power })
+        self.state._set_tool_power(power)
         self.write(statement)
 
     @typechecked
@@ -589,9 +589,9 @@ class GCodeBuilder(GCodeCore):
             raise ValueError("Not a valid spin mode.")
 
         mode = SpinMode(mode)
-        self.state._set_spin_mode(mode, speed)
         params = self.format.parameters({ "S": speed })
         mode_statement = self._get_statement(mode)
+        self.state._set_spin_mode(mode, speed)
         statement = f"{params} {mode_statement}"
         self.write(statement)
 
@@ -631,9 +631,9 @@ class GCodeBuilder(GCodeCore):
             raise ValueError(f"Not a valid power mode: {mode}.")
 
         mode = PowerMode(mode)
-        self.state._set_power_mode(mode, power)
         params = self.format.parameters({ "S": power })
         mode_statement = self._get_statement(mode)
+        self.state._set_power_mode(mode, power)
         statement = f"{params} {mode_statement}"
         self.write(statement)
 
